@@ -103,42 +103,46 @@ def simpleEscape (c : Nat) : Option Nat :=
   else if c = BACKSLASH then some BACKSLASH
   else none
 
-private def cons1 (v : Nat) : Option (List Nat × List Nat) → Option (List Nat × List Nat) :=
-  Option.map (fun p => (v :: p.1, p.2))
+/-- EscapeSequence without its backslash: the denoted unit and how many characters it takes
+    (OctalEscape by longest match: `\o`, `\oo`, `\[0-3]oo`). `none` = illegal escape. -/
+def escapeSeq : List Nat → Option (Nat × Nat)
+  | [] => none
+  | e :: r1 =>
+    match simpleEscape e with
+    | some v => some (v, 1)
+    | none =>
+      match octVal e with
+      | none => none
+      | some o1 =>
+        match r1 with
+        | [] => some (o1, 1)
+        | c2 :: r2 =>
+          match octVal c2 with
+          | none => some (o1, 1)
+          | some o2 =>
+            match r2 with
+            | [] => some (o1 * 8 + o2, 2)
+            | c3 :: _ =>
+              match octVal c3 with
+              | none => some (o1 * 8 + o2, 2)
+              | some o3 => if o1 ≤ 3 then some (o1 * 64 + o2 * 8 + o3, 3) else some (o1 * 8 + o2, 2)
 
-/-- `strChars cs`: `cs` is what follows an opening `"`. Reads StringCharacters up to the closing `"`;
+/-- `strCharsFrom skip cs`: `cs` is what follows an opening `"`; the first `skip` characters belong to
+    an escape sequence that has already been read. Reads StringCharacters up to the closing `"`;
     returns the denoted code units and what follows the literal. `none` = not a string literal. -/
-def strChars : List Nat → Option (List Nat × List Nat)
-  | [] => none                                   -- unterminated
-  | c :: r =>
+def strCharsFrom : Nat → List Nat → Option (List Nat × List Nat)
+  | _, [] => none                                -- unterminated
+  | skip + 1, _ :: r => strCharsFrom skip r
+  | 0, c :: r =>
     if c = DQUOTE then some ([], r)
     else if c = CR ∨ c = LF then none            -- line terminator inside a string literal
     else if c = BACKSLASH then
-      match r with
-      | [] => none
-      | e :: r1 =>
-        match simpleEscape e with
-        | some v => (strChars r1).map (fun p => (v :: p.1, p.2))
-        | none =>
-          match octVal e with
-          | none => none                          -- illegal escape character
-          | some o1 =>
-            -- OctalEscape, longest match: \o | \oo | \[0-3]oo
-            match r1 with
-            | [] => none
-            | c2 :: r2 =>
-              match octVal c2 with
-              | none => (strChars r1).map (fun p => (o1 :: p.1, p.2))
-              | some o2 =>
-                match r2 with
-                | [] => none
-                | c3 :: r3 =>
-                  match octVal c3 with
-                  | some o3 =>
-                    if o1 ≤ 3 then (strChars r3).map (fun p => ((o1 * 64 + o2 * 8 + o3) :: p.1, p.2))
-                    else (strChars r2).map (fun p => ((o1 * 8 + o2) :: p.1, p.2))
-                  | none => (strChars r2).map (fun p => ((o1 * 8 + o2) :: p.1, p.2))
-    else (strChars r).map (fun p => (c :: p.1, p.2))
+      match escapeSeq r with
+      | none => none
+      | some (v, k) => (strCharsFrom k r).map (fun p => (v :: p.1, p.2))
+    else (strCharsFrom 0 r).map (fun p => (c :: p.1, p.2))
+
+def strChars (cs : List Nat) : Option (List Nat × List Nat) := strCharsFrom 0 cs
 
 /-- a string literal token at the start of (already translated) input -/
 def stringLiteral : List Nat → Option (List Nat × List Nat)
